@@ -1,6 +1,6 @@
 (* Properties_C11.v — C11: nodes pipelines surface failures and always terminate; they never hang.
    Model: ConcModel.v; proofs: ConcInv.v, ConcLive.v. *)
-From PD Require Import Base ConcModel ConcObs ConcInv ConcLive.
+From PD Require Import Base ConcModel ConcObs ConcInv ConcLive ConcOwner ConcSnap ConcPM ConcProg.
 Open Scope nat_scope.
 
 (* every blocking wait is a timed wait: a background thread or consumer that has not finished ALWAYS has a move the
@@ -18,7 +18,7 @@ Theorem C11_next_after_stop_is_prompt : forall c m g,
 Proof. exact next_after_stop_prompt. Qed.
 Print Assumptions C11_next_after_stop_is_prompt.
 
-(* FULL statement (target): bounded-fair termination of every next() — see DESIGN.md 4 C11 *)
+(* some thread always has a move (weak: every wait is timed, so this alone does not exclude a livelock of polls) *)
 Definition C11_next_returns_statement : Prop :=
   forall c script sched,
     let s := run c sched (init script) in
@@ -28,3 +28,92 @@ Definition C11_next_returns_statement : Prop :=
 Theorem C11_no_deadlock : C11_next_returns_statement.
 Proof. exact no_deadlock. Qed.
 Print Assumptions C11_no_deadlock.
+
+(* ---- no livelock: a consumer blocked in next() is always being served ----
+   Every wait is a timed poll, so a hang of this pipeline would be a LIVELOCK: a reachable state in which the consumer
+   waits for an entry and every background thread can only poll (time out and re-check).  The theorems below exclude it,
+   for every reachable state of every interleaving (primitive granularity, timeouts included) in which no join() of an old
+   read thread timed out (those schedules are known finding D10's):
+   whenever the consumer of the current iterator waits at its queue get with nothing to take and the stop event unset,
+   some thread of that iterator has NOT finished and can ADVANCE — its next data-path primitive (semaphore acquire,
+   next(source), queue get/put) is enabled, i.e. the entry the consumer waits for is in flight and movable, or the
+   reader can produce it.  [r_adv/w_adv/s_adv; C11_adv_is_enabled ties them to the model's own enabledness.]
+   Invariants behind it (ConcProg.v): every index of the window [cur_idx, next index) is in flight exactly once; the
+   sorter never buffers the index it waits for; no worker/sorter exits while the stop event is unset; the reader exits
+   only after the terminal entry; permits + in-flight = bound.  Also: once the epoch is over for the consumer
+   (StopIteration or a source error was delivered) it never waits at the queue again. *)
+Theorem C11_parallel_mapper_waiting_next_is_served : forall c, k_pm c = true -> k_inorder c = true -> 0 < k_nw c -> 0 < kmax c ->
+  forall script sched, jt_free c (init script) sched = true ->
+  forall g, cur (run c sched (init script)) = Some g ->
+  g_stop g = false -> g_c g = CGet -> g_q3 g = [] -> r_adv g \/ w_adv g \/ s_adv g.
+Proof. exact waiting_next_is_served. Qed.
+Print Assumptions C11_parallel_mapper_waiting_next_is_served.
+
+Theorem C11_prefetcher_waiting_next_is_served : forall c, k_pm c = false -> 0 < kmax c ->
+  forall script sched, jt_free c (init script) sched = true ->
+  forall g, cur (run c sched (init script)) = Some g ->
+  g_c g = CGet -> g_q1 g = [] -> r_adv g.
+Proof. exact pf_waiting_next_is_served. Qed.
+Print Assumptions C11_prefetcher_waiting_next_is_served.
+
+(* the constructor's handshake (the consumer waits for the reader's initial snapshot) is served by the reader *)
+Theorem C11_parallel_mapper_waiting_init_is_served : forall c, k_pm c = true -> k_inorder c = true ->
+  forall script sched, jt_free c (init script) sched = true ->
+  forall g, cur (run c sched (init script)) = Some g ->
+  (g_c g = CInit \/ g_c g = CSleep) -> g_store g = [] -> r_adv g.
+Proof. exact waiting_init_is_served. Qed.
+Print Assumptions C11_parallel_mapper_waiting_init_is_served.
+
+(* after the terminal entry the next next() does not wait: it finds the reader finished and every permit back *)
+Theorem C11_after_terminal_next_stops : forall c m g pos, PGinv c g pos -> g_term g = true -> g_c g = CChk2 -> g_mpstop g = false ->
+  g_c (fst (cstep c m g)) = CStopA.
+Proof. exact after_terminal_next_stops. Qed.
+Print Assumptions C11_after_terminal_next_stops.
+
+(* "can advance" implies the thread's pending primitive is enabled in the model (Go is offered to the scheduler) *)
+Theorem C11_adv_is_enabled : forall g,
+  (r_adv g -> exists l tw, r_pending g = Some (l, true, tw)) /\
+  (w_adv g -> exists i l tw, w_pending g i = Some (l, true, tw)) /\
+  (s_adv g -> exists l tw, s_pending g = Some (l, true, tw)).
+Proof. intros g. split; [apply r_adv_enabled | split; [apply w_adv_enabled | apply s_adv_enabled]]. Qed.
+Print Assumptions C11_adv_is_enabled.
+
+(* ---- bounded work ----
+   rho : gen -> nat (ConcProg.v) weighs every entry by the number of data-path moves it still needs (11 per entry the source
+   can still yield, ..., 2 in the sorter's output, 1 while the consumer holds its permit).  NO move of ANY thread of an
+   iterator — timeouts, polls, shutdown included, in ANY state — increases it, and every successful data-path move
+   (semaphore acquire, next(source), a queue put / get that does not time out, semaphore release) strictly decreases it.
+   So the threads of one iterator make at most rho(g) such moves under any schedule; with the "is served" theorems: a
+   scheduler that lets a thread that can advance run makes every next() return. *)
+Theorem C11_rank_reader : forall c m g pos, RPos g pos ->
+  rho c (fst (rstep c m g pos)) <= rho c g /\ (r_data m g -> rho c (fst (rstep c m g pos)) < rho c g).
+Proof. exact rho_rstep. Qed.
+Print Assumptions C11_rank_reader.
+Theorem C11_rank_worker : forall c i m g,
+  rho c (wstep c i m g) <= rho c g /\ (w_data i m g -> rho c (wstep c i m g) < rho c g).
+Proof. exact rho_wstep. Qed.
+Print Assumptions C11_rank_worker.
+Theorem C11_rank_sorter : forall c m g,
+  rho c (sstep c m g) <= rho c g /\ (s_data m g -> rho c (sstep c m g) < rho c g).
+Proof. exact rho_sstep. Qed.
+Print Assumptions C11_rank_sorter.
+Theorem C11_rank_consumer : forall c m g,
+  rho c (fst (cstep c m g)) <= rho c g /\ (c_data c m g -> rho c (fst (cstep c m g)) < rho c g).
+Proof. exact rho_cstep. Qed.
+Print Assumptions C11_rank_consumer.
+
+(* non-vacuity: reachable states in which the consumer does wait, served respectively by the reader (it is pulling), by a
+   worker (it holds the mapped entry) and by the sorter (the entry is in its input queue) *)
+Definition c11_rr (n : nat) : list (tid * mode) :=
+  firstn n (concat (repeat ([(TC, Go); (TG 0 GR, Go); (TG 0 (GW 0), Go); (TG 0 (GW 1), Go); (TG 0 GS, Go)]) 20)).
+Definition c11_cfg : cfg :=
+  {| k_pm := true; k_nw := 2; k_inorder := true; k_mc := None; k_sf := 2; k_xs := [10; 11; 12; 13; 14]; k_err := None; k_f := udf 100 [] |}.
+Definition c11_waiting (n : nat) : bool :=
+  let sc := [KReset None; KNext; KNext] in
+  jt_free c11_cfg (init sc) (c11_rr n) &&
+  match cur (run c11_cfg (c11_rr n) (init sc)) with
+  | Some g => negb (g_stop g) && (match g_c g with CGet => true | _ => false end) && (match g_q3 g with [] => true | _ => false end)
+  | None => false
+  end.
+Example C11_waiting_states_exist : c11_waiting 21 = true /\ c11_waiting 28 = true /\ c11_waiting 34 = true.
+Proof. vm_compute. repeat split. Qed.
